@@ -407,6 +407,48 @@ def accepts(ctx, elist, k):
     return b_or(*rs) if rs else False
 
 
+def declaration_order(te, t, depth=0):
+    """['string' | 'boolean' | 'x', ...]: the parts of t in the order they are written, where that order is fixed by the
+    statement (keywords, literal types, parentheses, unions, aliases of those and NonNullable of those); None where the
+    statement leaves the order open (indexed access, intersections, Extract, ...) and the part could be a string or boolean"""
+    t = deref(t)
+    if depth > 6:
+        return None
+    v = t.variant
+    if v == 'TsKeywordType':
+        return [{'TsStringKeyword': 'string', 'TsBooleanKeyword': 'boolean'}.get(kw(t), 'x')]
+    if v == 'TsLitType':
+        return [{'Str': 'string', 'Tpl': 'string', 'Bool': 'boolean'}.get(t.fields[0].get('lit').variant, 'x')]
+    if v in ('TsFnOrConstructorType', 'TsArrayType', 'TsTupleType', 'TsTypeLit'):
+        return ['x']
+    if v == 'TsParenthesizedType':
+        return declaration_order(te, t.fields[0].get('type_ann'), depth + 1)
+    if v == 'TsUnionOrIntersectionType' and t.fields[0].variant == 'TsUnionType':
+        out = []
+        for m in t.fields[0].fields[0].get('types'):
+            r = declaration_order(te, m, depth + 1)
+            if r is None:
+                return None
+            out.extend(r)
+        return out
+    if v == 'TsTypeRef':
+        tn = t.fields[0].get('type_name')
+        if tn.variant != 'Ident':
+            return None
+        nm = denote.pystr(tn.fields[0].get('sym'))
+        params = []
+        if is_some(t.fields[0].get('type_params')):
+            params = deref(t.fields[0].get('type_params').fields[0]).get('params')
+        if nm in te.aliases and not params:
+            return declaration_order(te, te.aliases[nm], depth + 1)
+        if nm == 'NonNullable' and len(params) == 1 and nm not in te.aliases and nm not in te.interfaces:
+            return declaration_order(te, params[0], depth + 1)
+        if nm in BUILTIN_CLASSES or nm in te.interfaces:
+            return ['x']
+        return None
+    return None
+
+
 def emitted_types(ctx, entry_value, raw=False):
     """{type: X, required: b, default?} -> (list | None, required).  raw=True: the `type` entry as written, ignoring skipCheck
     (Vue's default resolution compares `type` itself with Function whether or not the check is skipped)"""
@@ -511,6 +553,13 @@ def oracle(env):
             elist, req = emitted_types(ctx, hit[-1][2])
         except OracleGap as g:
             raise Unsupported('oracle gap: %s' % g)
+        order = declaration_order(te, ty)
+        if order is not None and 'string' in order and 'boolean' in order:
+            rl, _ = emitted_types(ctx, hit[-1][2], raw=True)
+            names = [denote.pystr(c) if c is not None else None for c in (rl or [])]
+            ok = 'String' in names and 'Boolean' in names and (names.index('String') < names.index('Boolean')) == (order.index('string') < order.index('boolean'))
+            obs.append(Obligation('Boolean and String stand in the emitted type list in the order they are declared', ok,
+                                  {'prop': kname, 'declared': [o for o in order if o != 'x'][:6], 'emitted': names, 'type': _type_text(env, ps)}))
         inh = inhabitants(te, ty)
         for k in sorted(inh):
             if k == 'null' and req is False:
@@ -550,7 +599,12 @@ def jobs(tier):
     inters = ['%s & %s' % (a, b) for a, b in itertools.combinations(['{ a: string }', 'Rec0', 'If0', '{ (): void }', 'Al3', 'object', 'Date'], 2)]
     wrapped = ['(%s)' % a for a in base[:8]] + ['NonNullable<%s | null>' % par(a) for a in base[:10]] + ['Array<%s>[number]' % a for a in base[:8]] + ['{ x: %s }["x"]' % a for a in base[:10]] + \
               ['[%s, string][0]' % a for a in base[:8]] + ['(%s)[]' % a for a in base[:4]]
-    for ch in chunks(unions + inters + wrapped, 16):
+    tb = ['string', 'boolean', 'any', 'unknown', 'number', 'null', '"lit"', 'true', 'Al0', 'Date'] if tier == 'quick' else \
+         ['string', 'boolean', 'any', 'unknown', 'number', 'null', '"lit"', 'true', 'Al0', 'Date', 'false', '`tpl`', '(string | number)', 'NonNullable<Al1>', 'Rec0["b"]', 'undefined']
+    triples = [' | '.join(t) for t in itertools.permutations(tb, 3) if any(x in ('string', '"lit"', '`tpl`', 'Al0', '(string | number)', 'NonNullable<Al1>') for x in t) and
+               any(x in ('boolean', 'true', 'false') for x in t)]
+    quads = [' | '.join(t) for t in itertools.permutations(['string', 'boolean', 'any', 'number', 'unknown'], 4) if 'string' in t and 'boolean' in t]
+    for ch in chunks(unions + inters + wrapped + triples + quads, 16):
         out.append({'types': ch})
     for n in ([3, 4, 5, 6, 7] if tier == 'quick' else [2, 3, 4, 5, 6, 7, 8, 9, 10]):
         out.append({'types': ['sym%d' % n]})
@@ -572,6 +626,8 @@ def classify(v, detail):
         return 'any/unknown-inside-a-union-emits-null-beside-constructors'
     if info.get('value_kind') == 'bigint' and em is not None and 'BigInt' not in em and 'Number' in em and re.search(r'\b\d+n\b', full):
         return 'bigint-literal-type-is-inferred-as-Number'
+    if v['obligation'].startswith('Boolean and String stand'):
+        return 'declared order %s of `%s` emitted as %s' % ('/'.join(info.get('declared') or []), ty, json.dumps(em))
     return 'value-kind %s of `%s` rejected by emitted %s' % (info.get('value_kind'), ty, json.dumps(em))
 
 
